@@ -5,6 +5,7 @@ import json
 import os
 import re
 import shutil
+import sys
 import subprocess
 
 import vlib
@@ -133,6 +134,38 @@ Definition real_eqb (a b : real) :=
 """
 
 
+def multi_column_match(rng):
+    """matches on tuples of 2-4 columns (int, bool, enum, string) whose arms constrain several columns equally often"""
+    kinds = [rng.choice(["int", "bool", "enum", "str"]) for _ in range(rng.randint(2, 4))]
+    ty = {"int": "int32", "bool": "bool", "enum": "Cl", "str": "string"}
+    pats = {"int": ["0", "1", "7", "_"], "bool": ["true", "false", "_"], "enum": ["Rd", "Gn", "Bl(_)", "Bl(0)", "_"], "str": ['"a"', '"b"', "_"]}
+    vals = {"int": ["0", "1", "7", "9"], "bool": ["true", "false"], "enum": ["Rd", "Gn", "Bl(0)", "Bl(5)"], "str": ['"a"', '"b"', '"zz"']}
+    arms = []
+    for i in range(rng.randint(2, 6)):
+        arms.append("        (%s) => %d," % (", ".join(rng.choice(pats[k]) for k in kinds), i + 1))
+    arms.append("        _ => 0,")
+    ps = ", ".join("c%d: %s" % (i, ty[k]) for i, k in enumerate(kinds))
+    body = "fn pick(%s) -> int32 {\n    match (%s) {\n%s\n    }\n}\n" % (ps, ", ".join("c%d" % i for i in range(len(kinds))), "\n".join(arms))
+    calls = ["    let _ = string_println(int32_to_string(pick(%s)));" % ", ".join(rng.choice(vals[k]) for k in kinds) for _ in range(4)]
+    return "enum Cl { Rd, Gn, Bl(int32) }\n" + body + "fn main() {\n" + "\n".join(calls) + "\n    ()\n}\n"
+
+
+def many_errors(rng):
+    """several independent errors in one program: impls missing several trait methods, unknown names, wrong types, duplicate impls"""
+    ms = rng.sample(["aa", "bb", "cc", "dd", "ee", "ff", "gg"], rng.randint(3, 6))
+    have = rng.sample(ms, rng.randint(0, 1))
+    out = ["trait Tq { %s }" % " ".join("fn %s(Self) -> int32;" % m for m in ms), "struct Sq { v: int32 }", "struct Rq { w: bool }"]
+    out.append("impl Tq for Sq { %s }" % " ".join("fn %s(self: Sq) -> int32 { self.v }" % m for m in have))
+    out.append("impl Tq for Rq { %s }" % " ".join("fn %s(self: Rq) -> int32 { 1 }" % m for m in rng.sample(ms, 1)))
+    if rng.random() < 0.5:
+        out.append("impl Tq for Sq { }")
+    body = []
+    for i in range(rng.randint(2, 5)):
+        body.append(rng.choice(["let _ = match Sq { v: 1 } { Sq { v: _, %s } => 0 };" % ", ".join("%s: _" % f for f in rng.sample(["zz", "yy", "xx", "ww", "uu"], rng.randint(2, 4))), "let _ = nope%d(1);" % i, "let _ = 1 + true;", 'let _: int32 = "s";', "let _ = Sq { v: 1, zz: 2 };", "let _ = Unk%d::f();" % i, "let _ = match 1 { true => 0, _ => 1 };"]))
+    out.append("fn main() { %s () }" % " ".join(body))
+    return "\n".join(out) + "\n"
+
+
 def fresh_process_outputs(path, n):
     """compile the same project in n fresh processes; returns list of digests and one sample result"""
     exe = vlib.build_harness()
@@ -179,6 +212,28 @@ def check(run):
 
     jobs = [(os.path.join(root, "p%04d" % i, "main.gom"), projs[i]) for i in sample] + [(c, None) for c in corpus] + [(os.path.join(vlib.VERIF, "design_probes/det13/main.gom"), None)]
 
+    # feature-rich single-file programs: the pipeline corpus, programs of the suite's generators and matches over several
+    # columns that are tested equally often (where the choice of the column to branch on must not depend on hashing)
+    import genericgen
+    import genprog
+    import semrun
+
+    q = run.tier == "quick"
+    gsrcs = [genprog.G(rng, fail_rate=0.02).program(depth=rng.choice([2, 3])) for _ in range(8 if q else 100)]
+    gsrcs += [genprog.closure_program(rng) for _ in range(6 if q else 80)]
+    gsrcs += [genericgen.Gen(rng).program(n_stmts=4, depth=2)[0] for _ in range(6 if q else 60)]
+    gsrcs += [multi_column_match(rng) for _ in range(12 if q else 200)]
+    # rejected programs: the same diagnostics in the same order (several independent errors per program)
+    sys.path.insert(0, os.path.dirname(os.path.abspath(__file__)))
+    import c04 as c04mod
+
+    n_valid_g = len(gsrcs)
+    gsrcs += [many_errors(rng) for _ in range(8 if q else 100)]
+    gsrcs += [c04mod.mutate(rng, rng.choice(gsrcs[:n_valid_g])) for _ in range(16 if q else 300)]
+    groot, gpaths = semrun.write_programs("c13g", gsrcs)
+    pipeline = sorted(__import__("glob").glob(os.path.join(vlib.REPO, "crates/compiler/src/tests/pipeline/*/main.gom")))
+    jobs += [(p_, None) for p_ in gpaths] + [(p_, None) for p_ in (pipeline[::4] if q else pipeline)]
+
     def one(job):
         path, p = job
         outs = fresh_process_outputs(path, runs_per)
@@ -190,6 +245,29 @@ def check(run):
             outs += [x.replace(alt, os.path.dirname(path)) for x in o2]
         return path, outs
 
+    # separate compilation: a link of several stale packages must name the same package in every process
+    import c15 as c15mod
+
+    sep_hist = [
+        (0, [("build", "Base"), ("build", "Lib"), ("build", "Util"), ("build", "Main"), ("edit_iface", "Base"), ("build", "Base"), ("link", c15mod.LINKSET[0])]),
+        (0, [("build", "Base"), ("build", "Lib"), ("build", "Util"), ("build", "Main"), ("edit_iface", "Base"), ("build", "Base"), ("build", "Main"), ("link", c15mod.LINKSET[0])]),
+        (2, [("build", "Base"), ("build", "Lib"), ("build", "Main"), ("edit_iface", "Base"), ("build", "Base"), ("link", c15mod.LINKSET[2])]),
+        (0, [("build", "Base"), ("build", "Lib"), ("build", "Util"), ("build", "Main"), ("link", ["Lib", "Util", "Main"])]),
+    ]
+    exe = vlib.build_harness()
+    for hi_, (shape, h) in enumerate(sep_hist):
+        ops, pos = c15mod.to_ops(shape, h)
+        seen = set()
+        for k in range(runs_per):
+            d = os.path.join(root, "sep%d_%d" % (hi_, k))
+            pr = subprocess.run([exe, "sep"], input=json.dumps({"dir": d, "ops": ops}) + "\n", capture_output=True, text=True, timeout=120, env=vlib.ENV)
+            try:
+                last = json.loads(pr.stdout)["results"][pos[-1]]
+            except (ValueError, KeyError, IndexError):
+                last = {"unreadable": pr.stdout[-300:]}
+            seen.add(json.dumps({k_: v for k_, v in last.items() if k_ != "go"}, sort_keys=True).replace(d, "DIR"))
+        if len(seen) > 1:
+            wits.append({"kind": "the same build/edit/link history run in %d fresh processes ended with %d different link results" % (runs_per, len(seen)), "history": h, "shape": c15mod.SHAPES[shape], "results": sorted(seen)[:3]})
     det_checked = 0
     with ThreadPoolExecutor(max_workers=vlib.NCPU) as ex:
         for path, outs in ex.map(one, jobs):
@@ -207,6 +285,7 @@ def check(run):
                             files[os.path.relpath(os.path.join(dp, x), os.path.dirname(path))] = open(os.path.join(dp, x)).read()
                 wits.append({"kind": "the same project compiled in %d fresh processes gave %d different outputs" % (len(outs), len(digs)), "differs_in": where, "project_files": files, "entry": path})
     shutil.rmtree(root, ignore_errors=True)
+    shutil.rmtree(groot, ignore_errors=True)
     nontriv = len({json.dumps(p, sort_keys=True) for p in projs if len(p) >= 3})
     run.add_cases(len(projs) + det_checked, nontriv, samples=[projs[0], projs[n_exh // 2], projs[-1]])
     run.cov["rule"] = (
